@@ -12,16 +12,32 @@ reg("C08",
            "declared initial value; a script source with NEMIT emissions: first offset symbolic in [0,DMAX] us from start, later gaps symbolic in [1,DMAX] us "
            "(1 = consecutive smallest steps); emitted values and the initial value symbolic in [-1e6,1e6]; start symbolic in [0,1000] us after MIN_ST; "
            "window length symbolic in [1,WMAX] us",
-    outside="feedback of collection shapes (TSS/TSD/TSB deltas: capture_delta / apply_delta beyond the scalar TS case); polymorphic TS[Base] deltas "
+    outside="collection shapes (see C08_feedback_tss for TSS; TSD/TSB not covered); polymorphic TS[Base] deltas "
             "(the capture_delta fallback branch of evaluate_feedback_sink); more than NEMIT writes per loop driven by the script (the always-writing shape "
             "performs up to WMAX writes); more than two loops; loops deeper than one nesting level; the request/reply transport's use of feedback",
     assumptions=["the nested variant is wired through hk/hk_nested.h, a line-by-line mirror of subgraph_wiring.h nested_<G> (whose template body crashes clang 14); "
                  "finish_subgraph, single_nested_graph_node and all runtime code are the repository's"],
     )
 
+reg("C08",
+    name="C08_feedback_tss", src="harness/C08_feedback_tss.cpp",
+    anchor_files=["src/hgraph/runtime/feedback_node.cpp", "include/hgraph/runtime/feedback_node.h", "include/hgraph/lib/std/operators/control.h",
+                  "src/hgraph/types/time_series/ts_delta.cpp", "src/hgraph/types/graph_wiring.cpp"],
+    quick=dict(defs=dict(NEMIT=2, DMAX=3, WMAX=5), symx=dict(shards=16, **{"max-wall": 600})),
+    thorough=dict(defs=dict(NEMIT=3, DMAX=3, WMAX=7), symx=dict(shards=16, **{"max-wall": 3000, "shard-depth": 8})),
+    reach=["end", "tss_back_to_back_writes", "tss_removal_delivered", "tss_two_deliveries", "tss_empty_delta_tick_written"],
+    bounds="stdlib::feedback<TSS<Int>> self loop without initial value (active reader, Unchecked validity); NEMIT script ticks, each applying one of 5 "
+           "enumerated set operations over concrete keys {0,1,2} (add 0; add 1; remove 0; add 0 and 1; remove 0 and add 2 - including operations "
+           "without net effect); script times symbolic (first offset in [0,DMAX] us, gaps in [1,DMAX] us); start symbolic in [0,1000] us; window symbolic "
+           "in [1,WMAX] us",
+    outside="TSS feedback with a declared initial delta; TSD / TSB / TSL feedback; symbolic set elements (keys of hashed containers must be concrete); "
+            "passive TSS readers; nested graphs",
+    )
+
 META = dict(
     level="bounded symbolic model checking of the real feedback source/sink pair (feedback_node.cpp), its rank-free wiring (control.h FeedbackWiringPort, "
           "graph_wiring.cpp) and the simulation executor: all write times, written values, the initial value, start and window are symbolic; loop shapes enumerated",
-    note="oracle: every read of the feedback port by the reader node, the reader-port recorder stream, the set of evaluations of the reader and the set of "
+    note="known finding F1 (C08_feedback_tss): a TSS tick with an empty delta on an already valid output is not delivered as a tick - listed in "
+         "known_findings.jsonl; oracle: every read of the feedback port by the reader node, the reader-port recorder stream, the set of evaluations of the reader and the set of "
          "engine cycles are compared with the one-step-delay model; bounds in evidence coverage.harnesses[*].bounds",
 )
